@@ -101,13 +101,38 @@ def judge(case, out, res):
                  cfg=cfg, inputs=case["inputs"], pos=pos)
 
 
+def faulted_case(case, res):
+    """the second rule-based run of each batch raises (memory error, bug in a rule ...): whatever rows come
+    back marked solved must still be balanced"""
+    b, tr = rowlib.balancer(0, 1, True)
+    orig = b.rb_method.run
+    n = {"k": 0}
+
+    def run(reactions, stats=None):
+        n["k"] += 1
+        if n["k"] % 2 == 0:
+            raise MemoryError("injected fault in the second rule-based run")
+        return orig(reactions, stats=stats)
+
+    b.rb_method.run = run
+    try:
+        out = rowlib.run_case(case)
+    finally:
+        b.rb_method.run = orig
+    res.count("faulted_runs")
+    if out["rows"]:
+        judge({"inputs": case["inputs"][: len(out["rows"])], "cfg": case.get("cfg"), "tag": "fault"}, out, res)
+
+
 def work(shard, res, tier, seed):
     if "replay" in shard:
         v = shard["replay"]
         case = {"tag": "replay", "inputs": v["inputs"], "cfg": v.get("cfg")}
         judge(case, rowlib.run_case(case), res)
         return
-    for case in shard["cases"]:
+    for ci, case in enumerate(shard["cases"]):
+        if case["tag"].startswith("redox") and ci % 2 == 0 and (case.get("cfg") or {}).get("n_jobs", 1) == 1:
+            faulted_case(case, res)
         out = rowlib.run_case(case)
         if out["err"]:
             res.count("rebalance_raised")
